@@ -49,7 +49,8 @@ RULE   = ('seeded histories of 4-30 events over 1-3 pilots and 1-12 tasks for '
 ASSUMPTIONS = ['pilot eligibility for backfilling as documented: state within '
                '[BF_START, BF_STOP] (both PMGR_ACTIVE by default), usage below '
                'hwm = cores * 200 %']
-SHARDS   = {'quick': 8, 'thorough': 16}
+SHARDS   = {'quick': 16, 'thorough': 16}
+TIMEOUT  = {'quick': 600, 'thorough': 5400}
 REQUIRED = {'forwards_checked': 3000, 'rr_batches_checked': 300,
             'bf_forwards_checked': 500, 'bf_usage_zero_checks': 100,
             'named_forwards': 200}
